@@ -148,7 +148,8 @@ def exact_fit_predict(kind, coordinates, data, params):
     elif kind == "cubic":
         est = verde.Cubic(**params)
     elif kind == "chain":
-        est = verde.Chain([("trend", verde.Trend(1)), ("spline", verde.Spline())])
+        # (both steps under ONE label: labels are only labels, Chain never asks for distinct ones)
+        est = verde.Chain([("step", verde.Trend(1)), ("step", verde.Spline())])
     elif kind == "vector_of":
         est = verde.Vector([verde.Spline(), verde.KNeighbors(k=1)])
     import warnings
@@ -166,7 +167,7 @@ def exact_fit_predict(kind, coordinates, data, params):
         # a clone must behave identically (and exercises get_params on the configuration)
     inner = est
     if kind == "chain":
-        inner = est.named_steps["spline"]
+        inner = est.steps[-1][1]
     if kind in ("spline", "chain"):
         J = inner.jacobian(coordinates, inner.force_coords_)
         S_ = J.std(axis=0)
